@@ -497,10 +497,14 @@ func runPeer(line string, t []string) string {
 						hd++
 					}
 				}
-				// request handlers of the two servers still running; those asleep in the scripted delay do not count
+				// request handlers of the two servers still running; those asleep in the scripted delay do not count, nor do those
+				// that wait for the account such a sleeper holds (the account-balance server handles one account's requests one
+				// after the other)
 				sh := 0
+				asleep := strings.Contains(stacks, "main.peerGetOne")
 				for _, g := range strings.Split(stacks, "\n\n") {
-					if serverHandlerTasks(g) > 0 && !strings.Contains(g, "main.peerGetOne") {
+					if serverHandlerTasks(g) > 0 && !strings.Contains(g, "main.peerGetOne") &&
+						!(asleep && strings.Contains(g, "sync.(*Mutex).Lock") && strings.Contains(g, "pkg/abmf.")) {
 						sh++
 					}
 				}
